@@ -124,7 +124,8 @@ def recording_sink():
     class RecSink(ConnectionIDSink):
         def open_connection(self, time, connection_id, is_server):
             ntrace.EXT.append((10 if is_server is None else (11 if is_server else 12), connection_id))
-            return None
+            from core.connection_impl import ConnectionImpl
+            return ConnectionImpl(time, 'X', is_server)
         def close_connection(self, time, connection_id):
             ntrace.EXT.append((2, connection_id))
         def message(self, connection_id, message):
@@ -148,3 +149,30 @@ def simple_message(rnd):
     from core import wl
     return wl.Message(rnd.choice([0.0, 1.5, 9.0]), wl.UnresolvedObject(rnd.randint(1, 5), rnd.choice([None, 'wl_display'])), rnd.random() < 0.5,
                       rnd.choice(['get_registry', 'get_registry', 'sync', 'commit']), ())
+
+
+def plugin_with_history(rnd):
+    """a Plugin wired to a recording sink, built without GDB (fields set directly), with some connections already seen"""
+    import types, sys
+    from pyvc import repo, ntrace
+    repo.load('backends.gdb_plugin.plugin')
+    import backends.gdb_plugin.plugin as plugin_mod
+    from core import PersistentUIState
+    from core.output import Output, stream
+    class _Thread:
+        global_num = 1
+    class _Gdb:
+        def selected_thread(self): return _Thread()
+        def execute(self, cmd): ntrace.EXT.append((5, cmd))
+    plugin_mod.gdb = _Gdb()
+    p = plugin_mod.Plugin.__new__(plugin_mod.Plugin)
+    p.out = Output(False, True, stream.String(), stream.String())
+    p.connection_id_sink = recording_sink()
+    class _UI:
+        def add_ui_state_listener(self, l): pass
+    p.state = PersistentUIState(_UI())
+    ntrace.REG['ui_state'] = p.state
+    p.connections = {}
+    for cid in rnd.sample(['gdb_conn:0x10', 'gdb_conn:0x20', 'gdb_conn:0x30'], rnd.randint(0, 3)):
+        p.open_connection(cid, rnd.choice([None, True, False]))
+    return p
